@@ -168,6 +168,7 @@ void fpInt(const json &in, json &out) {
             case 4: v = runIntegrate<F, 4>(w, a, b); break;
             case 5: v = runIntegrate<F, 5>(w, a, b); break;
             case 6: v = runIntegrate<F, 6>(w, a, b); break;
+            case 7: v = runIntegrate<F, 7>(w, a, b); break;
             default: throw std::runtime_error("harness: quadrature size");
           }
           if (foreign) return;  // reaching this point is the failure: the call should have thrown
